@@ -306,3 +306,35 @@ Proof. intros He Hs. pose proof (deflation_normaliser_ge_1 K' eps sim He Hs) as 
   - intros k Hk. pose proof (Hr k Hk). pose proof (term_le_rsum (S K') _ k Hr Hk). fold Z in H0. split. apply Rmult_le_pos; lra.
     replace 1 with (Z * / Z) by (field; lra). apply Rmult_le_compat_r; lra.
   - rewrite rsum_scale. fold Z. field. lra. Qed.
+
+(* ---- source_activity_mask: what must NOT matter, and validity from the property's own precondition ---- *)
+(* the posterior column does not depend on the log-pdfs of the classes the source-activity mask declares inactive *)
+Section MaskIndep.
+Variables (l l' : nat -> R) (b : nat -> bool).
+Lemma amax_opt_ext n : (forall k, (k <= n)%nat -> b k = true -> l k = l' k) -> amax_opt RO l b n = amax_opt RO l' b n.
+Proof. induction n; intros H; cbn [amax_opt].
+  - destruct (b 0%nat) eqn:B; [|reflexivity]. rewrite (H 0%nat ltac:(lia) B). reflexivity.
+  - rewrite (IHn ltac:(intros k Hk; apply H; lia)). destruct (b (S n)) eqn:B.
+    + rewrite (H (S n) ltac:(lia) B). reflexivity.
+    + reflexivity. Qed.
+Variables (K' : nat) (tiny : R) (w : nat -> R).
+Hypothesis Hact : forall k, (k <= K')%nat -> b k = true -> l k = l' k.
+Lemma amax_ext : amax RO K' l b = amax RO K' l' b.
+Proof. unfold amax. rewrite (amax_opt_ext K' Hact). reflexivity. Qed.
+Lemma unnorm_mask_indep k : (k <= K')%nat -> unnorm RO K' w l b k = unnorm RO K' w l' b k.
+Proof. intros Hk. unfold unnorm, shifted. rewrite !bmax_lmask, amax_ext. unfold lmask. rewrite amax_ext.
+  destruct (b k) eqn:B; [rewrite (Hact k Hk B)|]; reflexivity. Qed.
+Theorem posterior_mask_indep k : (k <= K')%nat -> posterior RO K' tiny w l b k = posterior RO K' tiny w l' b k.
+Proof. intros Hk. unfold posterior, den. rewrite (unnorm_mask_indep k Hk). rewrite !(bsum_RO (S K')).
+  rewrite (rsum_ext (S K') (unnorm RO K' w l b) (unnorm RO K' w l' b)) by (intros j Hj; apply unnorm_mask_indep; lia).
+  reflexivity. Qed.
+End MaskIndep.
+
+(* validity from the property's own precondition: the best ACTIVE class has mass *)
+Theorem posterior_valid_best_active (K' : nat) (tiny : R) (w l : nat -> R) (b : nat -> bool) :
+  0 < tiny -> (forall k, (k < S K')%nat -> 0 <= w k) ->
+  (exists k, (k < S K')%nat /\ b k = true /\ tiny <= w k /\ forall j, (j < S K')%nat -> b j = true -> l j <= l k) ->
+  (forall k, (k < S K')%nat -> 0 <= posterior RO K' tiny w l b k <= 1) /\
+  rsum (S K') (posterior RO K' tiny w l b) = 1 /\
+  (forall k, b k = false -> posterior RO K' tiny w l b k = 0).
+Proof. intros Ht Hw He. apply posterior_valid; auto. apply posterior_floor_inactive; auto. Qed.
